@@ -218,3 +218,144 @@ func VH_C12_tlv() {
 	}
 	vReach("end")
 }
+
+// vhFreshRun: a complete honest SMP run through the real state machine
+// (initiator ini, responder res); returns who reported success.
+func vhFreshRun(ini, res *vhParty, v3 bool, secI, secR []byte) (bool, bool) {
+	plen := 16
+	if v3 {
+		plen = 192
+	}
+	ini.rnd.next, res.rnd.next = nil, nil
+	vhSMPRand(ini, 8, plen)
+	vhSMPRand(res, 8, plen)
+	ini.ev.smp, res.ev.smp = nil, nil
+	stage := 0
+	defer func() { vObserve("freshrun", stage) }()
+	tl, err := ini.c.smp.state.startAuthenticate(ini.c, "", secI)
+	if err != nil {
+		return false, false
+	}
+	stage = 1
+	for _, t := range tl { // (an abort of the old run first, if one was under way)
+		m, ok := t.smpMessage()
+		if !ok {
+			return false, false
+		}
+		if _, e := m.receivedMessage(res.c); e != nil {
+			return false, false
+		}
+	}
+	stage = 2
+	r2, e2 := res.c.continueMessage(secR)
+	if e2 != nil || r2 == nil {
+		return false, false
+	}
+	stage = 3
+	r3, e3 := r2.receivedMessage(ini.c)
+	if e3 != nil || r3 == nil {
+		return false, false
+	}
+	stage = 4
+	r4, e4 := r3.receivedMessage(res.c)
+	if e4 != nil || r4 == nil {
+		return ini.ev.hasSMP(SMPEventSuccess), res.ev.hasSMP(SMPEventSuccess)
+	}
+	stage = 5
+	r4.receivedMessage(ini.c)
+	return ini.ev.hasSMP(SMPEventSuccess), res.ev.hasSMP(SMPEventSuccess)
+}
+
+// H-C12-recover: after any deviant event at any point of a run (a message of
+// any type with arbitrary fields, an abort, an unexpected user call), with the
+// victim's reply delivered to the peer, a fresh run with equal secrets
+// succeeds on both sides, and one with different secrets on neither - whoever
+// starts it.
+//
+// vh: prop=C12 expect=end unwind=400 timeout=120000 maxsteps=200000000
+func VH_C12_recover() {
+	vhSMPGroupSized(false)
+	vhSMPConcrete = true
+	v3 := vChoose("v3", 2) == 1
+	point := vChoose("point", 4)
+	a, b, _ := vhSMPAt(v3, point)
+	vic, peer := a, b
+	if vChoose("victim", 2) == 1 {
+		vic, peer = b, a
+	}
+	// the deviant message: out of sequence, its fields are arbitrary; in
+	// sequence, all fields take one of a few degenerate values (arbitrary
+	// in-sequence fields are the subject of VH_C12_zero and of C11: in the small
+	// group an arbitrary message passes the proofs by chance and is then simply
+	// an honest message)
+	stateBefore := vic.c.smp.state.identity()
+	degenerate := []int64{0, 1, 10, 11, 200}
+	dv := big.NewInt(degenerate[vChoose("degenerate", len(degenerate))])
+	kind := vChoose("kind", 7)
+	expects := []int{smpStateExpect1{}.identity(), smpStateExpect2{}.identity(), smpStateExpect3{}.identity(), smpStateExpect4{}.identity()}
+	inSeq := kind < 4 && expects[kind] == stateBefore
+	mk := func(n string) *big.Int {
+		if inSeq {
+			return dv
+		}
+		return vhAnyBig(n)
+	}
+	var reply smpMessage
+	switch kind {
+	case 0:
+		reply, _ = smp1Message{g2a: mk("f"), c2: mk("f"), d2: mk("f"), g3a: mk("f"), c3: mk("f"), d3: mk("f")}.receivedMessage(vic.c)
+	case 1:
+		reply, _ = smp2Message{g2b: mk("f"), c2: mk("f"), d2: mk("f"), g3b: mk("f"), c3: mk("f"), d3: mk("f"), pb: mk("f"), qb: mk("f"), cp: mk("f"), d5: mk("f"), d6: mk("f")}.receivedMessage(vic.c)
+	case 2:
+		reply, _ = smp3Message{pa: mk("f"), qa: mk("f"), cp: mk("f"), d5: mk("f"), d6: mk("f"), ra: mk("f"), cr: mk("f"), d7: mk("f")}.receivedMessage(vic.c)
+	case 3:
+		reply, _ = smp4Message{rb: mk("f"), cr: mk("f"), d7: mk("f")}.receivedMessage(vic.c)
+	case 4:
+		reply, _ = smpMessageAbort{}.receivedMessage(vic.c)
+	case 5:
+		vic.c.ProvideAuthenticationSecret([]byte("x"))
+	case 6:
+		t := vic.c.restartSMP()
+		reply, _ = t.smpMessage()
+	}
+	vAssert("no-success-from-deviant-event", !vic.ev.hasSMP(SMPEventSuccess))
+	if reply != nil {
+		reply.receivedMessage(peer.c)
+	}
+	// the deviating party is the peer; from here on it behaves: it abandons
+	// whatever it had under way (its abort reaches the victim)
+	if ab, ok := peer.c.restartSMP().smpMessage(); ok {
+		ab.receivedMessage(vic.c)
+	}
+	ini, res := vic, peer
+	if vChoose("starter", 2) == 1 {
+		ini, res = peer, vic
+	}
+	if kind < 4 {
+		vAssert("deviant-message-resets-the-victim", vic.c.smp.state.identity() == smpStateExpect1{}.identity())
+	}
+	equal := vChoose("equal", 2) == 1
+	secI, secR := []byte("fresh"), []byte("fresh")
+	if !equal {
+		secR = []byte("other")
+	}
+	// concrete parameter draws of the fresh run: four sequences for which no
+	// intermediate value degenerates in the 5-element group (with the others
+	// two exponents coincide and Qa/Qb = 1, which the range checks report as
+	// cheating; in the real group that has probability 2^-1535)
+	vhSMPSeed = []int{1, 2, 5, 6}[vChoose("seed", 4)]
+	okI, okR := vhFreshRun(ini, res, v3, secI, secR)
+	vObserve("recover", point, okI, okR, len(ini.ev.smp), len(res.ev.smp))
+	// (in the small group two different secrets collide modulo q with
+	// probability 1/q: what must agree is the value bound into the run)
+	fi, fr := ini.key.PublicKey().Fingerprint(), res.key.PublicKey().Fingerprint()
+	bi := generateSMPSecret(fi, fr, ini.c.ssid[:], secI, ini.c.version)
+	br := generateSMPSecret(fi, fr, res.c.ssid[:], secR, res.c.version)
+	equal = vBigEq(new(big.Int).Mod(bi, q), new(big.Int).Mod(br, q))
+	if equal {
+		vAssert("fresh-run-with-equal-secrets-succeeds", vAll(okI, okR))
+	} else {
+		vAssert("fresh-run-with-different-secrets-fails", vAll(!okI, !okR))
+	}
+	vReach("end")
+}
